@@ -776,7 +776,8 @@ Proof.
     { rewrite Hsv, <- Hk. apply set_nth_z_mid. }
     unfold marked, same_cfg. lsimp. split; [|split; [auto|split; [reflexivity|]]].
     + apply (WInv_intro _ (prefix l) (window l)); lsimp; auto. rewrite Hs1. exact HW1.
-    + exists (lives (window l) ++ lives a), (lives b). unfold live at 1. rewrite Hsv, lives_mid_live by assumption.
+    + rewrite Hsv in Hs1.
+      exists (lives (window l) ++ lives a), (lives b). unfold live at 1. rewrite Hsv, lives_mid_live by assumption.
       split; [rewrite <- app_assoc; reflexivity|].
       rewrite (live_of_split _ (prefix l) (window l)); lsimp; auto.
       rewrite Hs1, lives_mid_free by reflexivity. rewrite <- app_assoc. reflexivity.
@@ -811,4 +812,209 @@ Proof.
   destruct (free_middle_second_spec l x HI Hx) as [(-> & Hns)|H4].
   - exfalso. unfold live in Hx. apply in_app_or in Hx. destruct Hx as [Hx|Hx]; apply lives_is_live in Hx; tauto.
   - apply Hfin in H4. destruct H4 as (l' & -> & H). exists l'. split; [reflexivity|exact H].
+Qed.
+
+(* ------------------------------------------------------------------ findSuballocation, user data (C17) *)
+
+Lemma find_suballocation_spec l offset :
+  WInv l ->
+  match find_suballocation l offset with
+  | FoundFirst i =>
+    exists a s b, window l = a ++ s :: b /\ s_off s = offset /\ i = zlen (prefix l ++ a) /\
+                  nth_z (first l) i = Some s /\ first l = (prefix l ++ a) ++ s :: b
+  | FoundSecond i =>
+    exists a s b, second l = a ++ s :: b /\ s_off s = offset /\ i = zlen a /\ nth_z (second l) i = Some s
+  | NotFound => forall s, In s (window l) \/ In s (second l) -> s_off s <> offset
+  | FindPanic => False
+  end.
+Proof.
+  intros HI. destruct (WInv_elim _ HI) as (Hf & Hn & HW). unfold find_suballocation.
+  destruct (find_first_spec l offset HI) as (k & found & -> & Ht & Hnf). destruct found.
+  - destruct (Ht eq_refl) as (a & s & b & Hw & Hk & Hs & Hnth). exists a, s, b.
+    split; [exact Hw|]. split; [exact Hs|]. split; [rewrite zlen_app; lia|]. split; [exact Hnth|].
+    rewrite Hf at 1. rewrite Hw, app_assoc. reflexivity.
+  - specialize (Hnf eq_refl). destruct (mode_eqb (l_mode l) MEmpty) eqn:Hme.
+    + assert (l_mode l = MEmpty) by (destruct (l_mode l); try discriminate; reflexivity).
+      destruct HW. rewrite w_mode by assumption. intros s [Hs|[]]. auto.
+    + assert (Hm : l_mode l <> MEmpty) by (intros E; rewrite E in Hme; discriminate).
+      destruct (find_second_spec l offset HI Hm) as (k2 & found2 & -> & Ht2 & Hnf2). destruct found2.
+      * destruct (Ht2 eq_refl) as (a & s & b & Hsv & Hk & Hs & Hnth). exists a, s, b. auto.
+      * intros s [Hs|Hs]; auto.
+Qed.
+
+Lemma is_free_set_tag t s : is_free (set_tag t s) = is_free s.
+Proof. reflexivity. Qed.
+
+Lemma lives_retag a s b t :
+  lives (a ++ set_tag t s :: b) = if is_free s then lives (a ++ s :: b) else lives a ++ set_tag t s :: lives b.
+Proof.
+  destruct (is_free s) eqn:E.
+  - rewrite !lives_mid_free by (rewrite ?is_free_set_tag; assumption). reflexivity.
+  - rewrite lives_mid_live by (rewrite is_free_set_tag; assumption). reflexivity.
+Qed.
+
+Lemma sum_sizes_lives_retag a s b t :
+  sum_sizes (lives (a ++ set_tag t s :: b)) = sum_sizes (lives (a ++ s :: b)).
+Proof.
+  rewrite lives_retag. destruct (is_free s) eqn:E; [reflexivity|].
+  rewrite lives_mid_live by assumption. rewrite !sum_sizes_app. reflexivity.
+Qed.
+
+Lemma retag_win_W pre a s b sv m sf nm ns size g t :
+  W pre (a ++ s :: b) sv m sf nm ns size g -> W pre (a ++ set_tag t s :: b) sv m sf nm ns size g.
+Proof.
+  intros HW.
+  pose proof (W_geo _ _ _ _ _ _ _ _ _ (a ++ set_tag t s :: b) sv HW
+                (geo_mid a s (set_tag t s) b (same_geo_tag t s)) (geo_refl sv)) as HW1.
+  destruct HW.
+  replace sf with (size - sum_sizes (lives (a ++ set_tag t s :: b) ++ lives sv)).
+  2:{ rewrite w_sum, !sum_sizes_app, sum_sizes_lives_retag. reflexivity. }
+  replace nm with (count_free (a ++ set_tag t s :: b)).
+  2:{ rewrite w_nm, !count_free_mid, is_free_set_tag. reflexivity. }
+  rewrite w_ns. exact HW1.
+Qed.
+
+Lemma retag_sv_W pre win a s b m sf nm ns size g t :
+  W pre win (a ++ s :: b) m sf nm ns size g -> W pre win (a ++ set_tag t s :: b) m sf nm ns size g.
+Proof.
+  intros HW.
+  pose proof (W_geo _ _ _ _ _ _ _ _ _ win (a ++ set_tag t s :: b) HW (geo_refl win)
+                (geo_mid a s (set_tag t s) b (same_geo_tag t s))) as HW1.
+  destruct HW.
+  replace sf with (size - sum_sizes (lives win ++ lives (a ++ set_tag t s :: b))).
+  2:{ rewrite w_sum, !sum_sizes_app, sum_sizes_lives_retag. reflexivity. }
+  replace ns with (count_free (a ++ set_tag t s :: b)).
+  2:{ rewrite w_ns, !count_free_mid, is_free_set_tag. reflexivity. }
+  rewrite w_nm. exact HW1.
+Qed.
+
+Lemma last_replace (a : list sub) s s' b v z :
+  a ++ s' :: b = v ++ [z] -> (b = [] /\ z = s' /\ v = a) \/ (exists b0, b = b0 ++ [z] /\ a ++ s :: b = (a ++ s :: b0) ++ [z]).
+Proof.
+  intros H. destruct (list_snoc_cases b) as [->|(b0 & z' & ->)].
+  - apply app_inj_tail in H. left. destruct H. auto.
+  - right. rewrite app_comm_cons, app_assoc in H. apply app_inj_tail in H. destruct H as (_ & ->).
+    exists b0. split; [reflexivity|]. rewrite <- app_assoc. reflexivity.
+Qed.
+
+Lemma L_retag_win pre a s b sv m t :
+  L pre (a ++ s :: b) sv m -> L pre (a ++ set_tag t s :: b) sv m.
+Proof.
+  intros [H1 H2 H3 H4 H5 H6]. constructor; auto.
+  - intros E. destruct a; discriminate.
+  - intros h r E. destruct a as [|a0 a']; cbn in E; injection E as <- _.
+    + rewrite is_free_set_tag. eapply H3. reflexivity.
+    + eapply H3. reflexivity.
+  - intros v z E. destruct (last_replace _ s _ _ _ _ E) as [(-> & -> & ->)|(b0 & -> & E')].
+    + rewrite is_free_set_tag. eapply H4. reflexivity.
+    + eapply H4. exact E'.
+  - intros Hm E. destruct a; discriminate.
+Qed.
+
+Lemma L_retag_sv pre win a s b m t :
+  L pre win (a ++ s :: b) m -> L pre win (a ++ set_tag t s :: b) m.
+Proof.
+  intros [H1 H2 H3 H4 H5 H6]. constructor; auto.
+  - intros E. destruct a; discriminate.
+  - intros v z E. destruct (last_replace _ s _ _ _ _ E) as [(-> & -> & ->)|(b0 & -> & E')].
+    + rewrite is_free_set_tag. eapply H5. reflexivity.
+    + eapply H5. exact E'.
+Qed.
+
+(* effect of SetAllocationUserData on the live items: the item with that offset gets the tag; a
+   handle of a lazily deleted item that still lingers in a vector is accepted but changes no live
+   item *)
+Definition retag_effect (l : linear) (h : Z) (tag : option Z) (l' : linear) : Prop :=
+  (exists a x b, live l = a ++ x :: b /\ s_off x = h - 1 /\ live l' = a ++ set_tag tag x :: b) \/
+  (live l' = live l /\ forall x, In x (live l) -> s_off x <> h - 1).
+
+Theorem set_user_data_spec l h tag :
+  LInv l ->
+  match set_user_data l h tag with
+  | SetOk l' => LInv l' /\ same_cfg l l' /\ l_sum_free l' = l_sum_free l /\ retag_effect l h tag l'
+  | SetError => forall x, In x (live l) -> s_off x <> h - 1
+  | SetPanic => False
+  end.
+Proof.
+  intros HI. pose proof HI as (HWI & HL). destruct (WInv_elim _ HWI) as (Hf & Hn & HW).
+  unfold set_user_data. pose proof (find_suballocation_spec l (h - 1) HWI) as Hfs.
+  destruct (find_suballocation l (h - 1)) as [i|i| |]; [| | |contradiction].
+  - destruct Hfs as (a & s & b & Hw & Hs & Hi & Hnth & Hfv). rewrite Hnth.
+    assert (Hf1 : set_nth_z (first l) i (set_tag tag) = prefix l ++ a ++ set_tag tag s :: b).
+    { rewrite Hfv, Hi, set_nth_z_mid, <- app_assoc. reflexivity. }
+    rewrite Hw in HW, HL.
+    split; [|split; [unfold same_cfg; lsimp; auto|split; [lsimp; reflexivity|]]].
+    + apply (LInv_intro _ (prefix l) (a ++ set_tag tag s :: b)); lsimp; auto.
+      * apply retag_win_W. exact HW.
+      * apply L_retag_win. exact HL.
+    + assert (Hl' : live (with_first l (set_nth_z (first l) i (set_tag tag))) =
+                    lives (a ++ set_tag tag s :: b) ++ lives (second l)).
+      { rewrite <- (second_with_first l (set_nth_z (first l) i (set_tag tag))).
+        apply (live_of_split _ (prefix l)); lsimp; auto. }
+      unfold retag_effect. rewrite Hl'. unfold live. rewrite Hw, lives_retag. destruct (is_free s) eqn:Efree.
+      * right. split; [reflexivity|]. intros x Hx Hox.
+        assert (s = x).
+        { apply (live_unique l x s HWI); [|apply in_window_order; rewrite Hw; apply in_or_app; right; left; reflexivity|lia].
+          unfold live. rewrite Hw. exact Hx. }
+        subst s. rewrite <- Hw in Hx. fold (live l) in Hx. apply live_in_order in Hx. destruct Hx. congruence.
+      * left. exists (lives a), s, (lives b ++ lives (second l)).
+        rewrite lives_mid_live by assumption. rewrite <- !app_assoc. auto.
+  - destruct Hfs as (a & s & b & Hsv & Hs & Hi & Hnth). rewrite Hnth.
+    assert (Hs1 : set_nth_z (second l) i (set_tag tag) = a ++ set_tag tag s :: b).
+    { rewrite Hsv, Hi. apply set_nth_z_mid. }
+    pose proof HW as HW0. rewrite Hsv in HW, HL.
+    split; [|split; [unfold same_cfg; lsimp; auto|split; [lsimp; reflexivity|]]].
+    + apply (LInv_intro _ (prefix l) (window l)); lsimp; auto; rewrite Hs1.
+      * apply retag_sv_W. exact HW.
+      * apply L_retag_sv. exact HL.
+    + assert (Hl' : live (with_second l (set_nth_z (second l) i (set_tag tag))) =
+                    lives (window l) ++ lives (a ++ set_tag tag s :: b)).
+      { rewrite <- Hs1. rewrite <- (second_with_second l (set_nth_z (second l) i (set_tag tag))) at 2.
+        apply (live_of_split _ (prefix l)); lsimp; auto. }
+      unfold retag_effect. rewrite Hl'. unfold live. rewrite lives_retag. destruct (is_free s) eqn:Efree.
+      * right. rewrite Hsv. split; [reflexivity|]. intros x Hx Hox.
+        assert (s = x).
+        { apply (live_unique l x s HWI); [|apply in_second_order; rewrite Hsv; apply in_or_app; right; left; reflexivity|lia].
+          unfold live. rewrite Hsv. exact Hx. }
+        subst s. rewrite <- Hsv in Hx. fold (live l) in Hx. apply live_in_order in Hx. destruct Hx. congruence.
+      * left. exists (lives (window l) ++ lives a), s, (lives b).
+        rewrite Hsv, lives_mid_live by assumption. rewrite <- !app_assoc. auto.
+  - intros x Hx. apply Hfs. unfold live in Hx. apply in_app_or in Hx.
+    destruct Hx as [Hx|Hx]; apply lives_is_live in Hx; tauto.
+Qed.
+
+(* C17: looking up a live item by its handle returns that item's user data *)
+Theorem lookup_own l x :
+  LInv l -> In x (live l) -> get_user_data l (s_off x + 1) = UDOk (s_tag x).
+Proof.
+  intros HI Hx. pose proof HI as (HWI & HL). unfold get_user_data.
+  replace (s_off x + 1 - 1) with (s_off x) by lia.
+  pose proof (find_suballocation_spec l (s_off x) HWI) as Hfs.
+  destruct (find_suballocation l (s_off x)) as [i|i| |]; [| | |contradiction].
+  - destruct Hfs as (a & s & b & Hw & Hs & Hi & Hnth & Hfv). rewrite Hnth.
+    assert (s = x); [|subst; reflexivity].
+    apply (live_unique l x s HWI Hx); [|exact Hs]. apply in_window_order. rewrite Hw. apply in_or_app. right. left. reflexivity.
+  - destruct Hfs as (a & s & b & Hsv & Hs & Hi & Hnth). rewrite Hnth.
+    assert (s = x); [|subst; reflexivity].
+    apply (live_unique l x s HWI Hx); [|exact Hs]. apply in_second_order. rewrite Hsv. apply in_or_app. right. left. reflexivity.
+  - exfalso. unfold live in Hx. apply in_app_or in Hx.
+    destruct Hx as [Hx|Hx]; apply lives_is_live in Hx; destruct Hx as (Hx & _); eapply Hfs; eauto.
+Qed.
+
+Theorem set_own_succeeds l x tag :
+  LInv l -> In x (live l) ->
+  exists l', set_user_data l (s_off x + 1) tag = SetOk l' /\ LInv l' /\
+             exists a b, live l = a ++ x :: b /\ live l' = a ++ set_tag tag x :: b.
+Proof.
+  intros HI Hx. pose proof (set_user_data_spec l (s_off x + 1) tag HI) as H.
+  destruct (set_user_data l (s_off x + 1) tag) as [l'| |]; [| |contradiction].
+  - exists l'. split; [reflexivity|]. destruct H as (HI' & _ & _ & Heff). split; [exact HI'|].
+    destruct Heff as [(a & y & b & Hl & Hoy & Hl')|(_ & Hno)].
+    + assert (y = x).
+      { destruct HI as (HWI & _). apply (live_unique l x y HWI Hx); [|lia].
+        assert (In y (live l)) by (rewrite Hl; apply in_or_app; right; left; reflexivity).
+        apply live_in_order in H. tauto. }
+      subst y. eauto.
+    + exfalso. apply (Hno x Hx). lia.
+  - exfalso. apply (H x Hx). lia.
 Qed.
